@@ -95,6 +95,19 @@ def str_items():
     return groups
 
 
+REGARGS = [('68000', 'dc.w d0'), ('68000', 'dc.b d1'), ('68000', 'dc.l 1,sp,2'), ('68000', 'dc.w a1'), ('h8/300', 'dc.b r0h'), ('h8/300', 'dc.w r1'), ('sh7000', 'dc.w r1'),
+           ('sh7000', 'dc.l r1'), ('msp430', 'byte r4'), ('msp430', 'word r5'), ('msp430', 'byte 1,r4,2'), ('atmega8', 'data r16'), ('80c166', 'dw r1'), ('80c166', 'db rl1'),
+           ('z8001', 'dw r1'), ('z8001', 'db rl1'), ('z8001', 'dd r1'), ('z8001', 'dq r1'), ('z8001', 'dw 1,r1,2')]
+
+
+def reg_items():
+    """a register (symbol) is no value: a data statement that is given one must say so, not drop the argument or the statement"""
+    groups = {}
+    for cpu, st in REGARGS:
+        groups.setdefault(cpu, []).append({'line': '\t' + st, 'want': 'ERR', 'sig': '%s/%s/register-argument' % (cpu, st.split()[0])})
+    return groups
+
+
 def charset_batches():
     # (pre, items): CHARSET remaps applied to strings and character constants only, never to integers
     maps = [
@@ -394,6 +407,7 @@ def subspaces(tier):
                 yield b
     subs.append(('a:integers', from_groups(int_items())))
     subs.append(('b:strings', from_groups(str_items())))
+    subs.append(('b:register-arguments', from_groups(reg_items())))
 
     def cs():
         for p, its in charset_batches():
